@@ -300,7 +300,24 @@ func runShard(bin string, cfg *CheckCfg, tier string, seed int64, shard, shards 
 	log := string(outb)
 	buf, rerr := os.ReadFile(out)
 	_ = os.Remove(out)
+	cur, cerr := os.ReadFile(out + ".cur")
+	_ = os.Remove(out + ".cur")
 	if rerr != nil {
+		if sig := crashSignature(log); sig != "" && cerr == nil {
+			// the test process died from an unrecovered panic (a goroutine started by the code under test):
+			// the last checkpoint says what was being executed
+			var cp struct {
+				Case   string          `json:"case"`
+				Detail json.RawMessage `json:"detail"`
+			}
+			if json.Unmarshal(cur, &cp) == nil {
+				res := &ShardResult{Property: cfg.ID, Shard: shard, Exhaustive: false, Completed: true,
+					Caps: []string{"a shard process crashed; the rest of its sub-space was not explored"},
+					Violations: []Violation{{Key: cfg.ID + "|process-crash|" + sig, Case: cp.Case, Detail: cp.Detail,
+						What: "the test process died from an unrecovered panic while executing the checkpointed case:\n" + tail(log, 2500)}}}
+				return res, log, nil
+			}
+		}
 		return nil, log, fmt.Errorf("shard %d produced no result (exit: %v)", shard, err)
 	}
 	var res ShardResult
@@ -804,4 +821,24 @@ func setupReady() map[string]bool {
 		}
 	}
 	return ready
+}
+
+// crashSignature extracts a stable one-line signature of a Go panic / fatal error from a test log.
+func crashSignature(log string) string {
+	if strings.Contains(log, "test timed out") {
+		return ""
+	}
+	for _, l := range strings.Split(log, "\n") {
+		if strings.HasPrefix(l, "panic: ") || strings.HasPrefix(l, "fatal error: ") {
+			l = strings.TrimSpace(l)
+			if i := strings.Index(l, " [recovered"); i > 0 {
+				l = l[:i]
+			}
+			if len(l) > 120 {
+				l = l[:120]
+			}
+			return l
+		}
+	}
+	return ""
 }
